@@ -4,7 +4,7 @@
    normalize, symbolic_push, symbolic_append), in-place resolution (all five branches) and authority-handle histories. *)
 From Coq Require Import List NArith Bool Arith.
 Import ListNotations.
-Require Import V.Regex V.Parse V.ParseProofs V.PathSpec V.Splice V.Setters V.Push V.Auth V.AuthProofs V.AuthMut V.AuthMutProofs2 V.RefPath V.RefAuth V.C04Proofs V.C04Proofs2 V.Abnf V.BridgePaths V.C02Bridge V.ValidSetInst V.C04Valid.
+Require Import V.Regex V.Parse V.ParseProofs V.PathSpec V.Splice V.Setters V.Push V.Auth V.AuthProofs V.AuthMut V.AuthMutProofs2 V.RefPath V.RefAuth V.C04Proofs V.C04Proofs2 V.Abnf V.BridgePaths V.C02Bridge V.ValidSetInst V.C04Valid V.C04Valid2.
 Local Open Scope nat_scope.
 
 Theorem C04_setter_sequences_partial : forall (ops : list sop) (p : parts), wf_parts p -> Forall arg_ok ops ->
@@ -24,6 +24,20 @@ Theorem C04_setters_keep_validity_IRI : forall ops s, L (IRI_reference I C02Brid
   exists s', run ops s = Some s' /\ L (IRI_reference I C02Bridge.P) s'.
 Proof. exact valid_sequences_I. Qed.
 Print Assumptions C04_setters_keep_validity_IRI.
+
+(* ... and the same AT THE LEVEL OF THE RFC GRAMMAR for sequences that mix the five setters with the PATH-HANDLE
+   mutators push / pop / clear / normalize / symbolic_push / symbolic_append (segment arguments in the segment
+   language): the text stays in the URI-reference (IRI-reference) language, no call panics.  (Index-level handle ->
+   text-level functions; segments of every result are input segments, the argument, ".", ".." or ""; a text is a path
+   of the grammar iff all pieces of its '/'-split are segments of the grammar -- two certificates per family.) *)
+Theorem C04_mixed_validity_URI : forall ops s, L (IRI_reference U U) s -> Forall (vok U U) ops ->
+  exists s', vrun ops s = Some s' /\ L (IRI_reference U U) s'.
+Proof. exact valid_mixed_U. Qed.
+Print Assumptions C04_mixed_validity_URI.
+Theorem C04_mixed_validity_IRI : forall ops s, L (IRI_reference I C02Bridge.P) s -> Forall (vok I C02Bridge.P) ops ->
+  exists s', vrun ops s = Some s' /\ L (IRI_reference I C02Bridge.P) s'.
+Proof. exact valid_mixed_I. Qed.
+Print Assumptions C04_mixed_validity_IRI.
 
 (* the same for sequences that MIX the five setters, path push / pop / clear / normalize / symbolic_push /
    symbolic_append (through a handle taken on the reference), in-place resolution against any well-formed base that
